@@ -135,6 +135,64 @@ impl VT {
     }
 }
 
+impl VT {
+    pub fn first_value_text(&self) -> String {
+        self.values().into_iter().next().map(|x| x.0).unwrap_or_default()
+    }
+    pub fn depth(&self) -> usize {
+        match self {
+            VT::Seq(ms) => 1 + ms.iter().map(|(t, _)| t.depth()).max().unwrap_or(0),
+            VT::Cho(a) => 1 + a.iter().map(|t| t.depth()).max().unwrap_or(0),
+            VT::Of(e) => 1 + e.depth(),
+            _ => 0,
+        }
+    }
+}
+
+/// structural features of a composite value that the bindings' type-checking is known to depend on
+/// (P: a present OPTIONAL component, L: a non-empty list, E: a list whose elements are of an inline CHOICE / SEQUENCE type)
+pub fn value_class(c: &Case) -> String {
+    fn has_opt(v: &Val) -> bool {
+        match v {
+            Val::Opt(Some(_)) => true,
+            Val::Opt(None) => false,
+            Val::Choice(_, x) => has_opt(x),
+            Val::Seq(ms) | Val::List(ms) => ms.iter().any(has_opt),
+            _ => false,
+        }
+    }
+    fn has_list(v: &Val) -> bool {
+        match v {
+            Val::List(ms) => !ms.is_empty(),
+            Val::Opt(Some(x)) | Val::Choice(_, x) => has_list(x),
+            Val::Seq(ms) => ms.iter().any(has_list),
+            _ => false,
+        }
+    }
+    fn of_constructed(t: &VT) -> bool {
+        match t {
+            VT::Of(e) => matches!(**e, VT::Cho(_) | VT::Seq(_) | VT::Of(_)) || of_constructed(e),
+            VT::Seq(ms) => ms.iter().any(|(t, _)| of_constructed(t)),
+            VT::Cho(a) => a.iter().any(of_constructed),
+            _ => false,
+        }
+    }
+    let mut s = String::new();
+    if has_opt(&c.expected) {
+        s.push('P');
+    }
+    if has_list(&c.expected) {
+        s.push('L');
+    }
+    if c.vt.as_ref().map_or(false, of_constructed) && has_list(&c.expected) && c.feature.ends_with("inline-types") {
+        s.push('E');
+    }
+    if s.is_empty() {
+        s.push('-');
+    }
+    s
+}
+
 /// X.690 DER of `v` as a value of `t` (module with AUTOMATIC TAGS)
 pub fn der_vt(v: &Val, t: &VT) -> Option<Vec<u8>> {
     Some(match (t, v) {
